@@ -59,6 +59,43 @@ int main(int argc, char** argv) {
         os << "{\"e\":\"GameNew\"}\n";
         int n = 20 + rnd.nextInt(140);
         std::vector<Move> recent;     // moves made, to build shuffles
+        if (rnd.nextInt(12) == 0) {
+            // directed family: a double pawn push beside an enemy pawn that is pinned along the rank (texel's pseudo en-passant square, which
+            // every entry point has to clear), optionally taken back and replayed with undo / redo at some point, then king shuffles that
+            // bring the position after the push back twice, then the repetition claim with the move that makes the third occurrence
+            static const char* scr[2][10] = {
+                {"8/8/8/8/k2p3R/8/4P3/4K3 w - - 0 1", "e4", "Ka5", "Kd1", "Ka4", "Ke1", "Ka5", "Kd1", "Ka4", "Ke1"},
+                {"4k3/4p3/8/K2P3r/8/8/8/8 b - - 0 1", "e5", "Ka4", "Kd8", "Ka5", "Ke8", "Ka4", "Kd8", "Ka5", "Ke8"}};
+            int v = rnd.nextInt(2);
+            int redoAfter = rnd.nextInt(3) == 0 ? -1 : 1 + rnd.nextInt(rnd.nextInt(2) == 0 ? 1 : 7);     // after which move the undo/redo pair comes (-1: never)
+            int depthUR = 1 + rnd.nextInt(2);
+            std::string fen = scr[v][0];
+            bool ok = game.processString("setpos " + fen);
+            Position p0 = TextIO::readFEN(fen);
+            c.log("setpos", ",\"fen\":\"" + fen + "\",\"raw\":{" + posFieldsJ(p0) + "}", ok);
+            for (int k = 1; k <= 9; k++) {
+                Position pos = game.getPos();
+                Move m = TextIO::stringToMove(pos, scr[v][k]);
+                if (m.isEmpty()) break;
+                if (k == 9) {
+                    bool ok2 = game.processString(std::string("draw rep ") + scr[v][k]);
+                    claims++;
+                    if ((int)game.getGameState() == 5) claimsOk++;
+                    c.log("claim", std::string(",\"rep\":true,\"hasM\":true,\"m\":") + mvJ(m), ok2);
+                    break;
+                }
+                bool ok2 = game.processString(scr[v][k]);
+                c.log("move", ",\"m\":" + mvJ(m), ok2);
+                if (k == redoAfter) {
+                    int d = std::min(depthUR, k);
+                    for (int j = 0; j < d; j++) { bool o = game.processString("undo"); undos++; c.log("undo", "", o); }
+                    for (int j = 0; j < d; j++) { bool o = game.processString("redo"); c.log("redo", "", o); }
+                }
+            }
+            totalCmds += c.cmds;
+            std::cout.rdbuf(coutBuf);
+            continue;
+        }
         if (rnd.nextInt(3) != 0) {
             std::string fen = setFens[rnd.nextInt(nSetFens)];
             if (rnd.nextInt(4) == 0) {
